@@ -162,6 +162,39 @@ func runC18(res *Result, rng *RNG, tier string, outDir string) {
 				}
 			}
 		}
+		// once evaluated, no operation other than Reset makes saving possible again
+		{
+			ev, _ := newAuthorizer(tokA, 1000, 100, entryAuthorizerFor)
+			applyContent(ev, content)
+			ev.Authorize()
+			for k := 0; k < 3; k++ {
+				var what string
+				func() {
+					defer func() { recover() }()
+					switch r.Intn(4) {
+					case 0:
+						what = "LoadPolicies"
+						ev.LoadPolicies(snapshot)
+					case 1:
+						what = "Add*"
+						if len(content) > 0 {
+							applyContent(ev, content[:1+r.Intn(len(content))])
+						}
+					case 2:
+						what = "Query"
+						ev.Query(queries[0].toBiscuit())
+					default:
+						what = "Authorize"
+						ev.Authorize()
+					}
+				}()
+				res.Dist("after-evaluation:" + what)
+				if _, serr := ev.SerializePolicies(); serr == nil {
+					res.Violate("save-after-evaluation-then:"+what, "SerializePolicies succeeds on an evaluated authorizer after "+what+" (only Reset may make saving possible again): the snapshot carries the token's facts", rep)
+					break
+				}
+			}
+		}
 		// malformed snapshots
 		for k := 0; k < 6; k++ {
 			m := append([]byte{}, snapshot...)
